@@ -622,6 +622,29 @@ fn api_editprobe(args: &[String]) {
                 }
             }
         })(),
+        "foreign-type-move" | "foreign-type-copy" => (|| {
+            // ALGORITHM-FAMILY is a free text in CRYPTO-SERVICE-KEY and an enumeration in CRYPTO-SERVICE-CERTIFICATE (same name, two element types)
+            let v = AutosarVersion::Autosar_00050;
+            let model = AutosarModel::new();
+            let file = model.create_file("f.arxml", v).map_err(|e| e.to_string())?;
+            let elements = model.root_element().create_sub_element(ElementName::ArPackages)
+                .and_then(|e| e.create_named_sub_element(ElementName::ArPackage, "p"))
+                .and_then(|e| e.create_sub_element(ElementName::Elements));
+            let Ok(elements) = elements else { return Ok(()) };
+            let Ok(key) = elements.create_named_sub_element(ElementName::CryptoServiceKey, "k") else { return Ok(()) };
+            let Ok(cert) = elements.create_named_sub_element(ElementName::CryptoServiceCertificate, "c") else { return Ok(()) };
+            let Ok(af) = key.create_sub_element(ElementName::AlgorithmFamily) else { return Ok(()) };
+            if af.set_character_data(CharacterData::String("not an enum item".to_string())).is_err() { return Ok(()); }
+            // the scenario needs the two types to differ: a value the editor refuses for an element created in the destination
+            let Ok(own) = cert.create_sub_element(ElementName::AlgorithmFamily) else { return Ok(()) };
+            if own.element_type() == af.element_type() || own.set_character_data(CharacterData::String("not an enum item".to_string())).is_ok() { return Ok(()); }
+            cert.remove_sub_element(own).map_err(|e| e.to_string())?;
+            let (call, r) = if which == "foreign-type-move" { ("move_element_here", cert.move_element_here(&af).map(|_| ())) } else { ("create_copied_sub_element", cert.create_copied_sub_element(&af).map(|_| ())) };
+            match r {
+                Err(_) => Ok(()),
+                Ok(()) => reload(&file).map_err(|e| format!("after the successful call {}(ALGORITHM-FAMILY of a CRYPTO-SERVICE-KEY, a free text) on a CRYPTO-SERVICE-CERTIFICATE (where ALGORITHM-FAMILY is an enumeration; set_character_data refuses the same text there): {}", call, e)),
+            }
+        })(),
         _ => { println!("{{\"outcome\":\"unknown-check\"}}"); return; }
     };
     match r { Ok(()) => println!("OK 1 probe {}", which), Err(e) => println!("FAIL {}", e) }
